@@ -174,6 +174,7 @@ pub fn c05(cx: &RunCtx) {
     cx.assume("reference and subject call the same std / libm primitive in the same process, so results are compared bit for bit (NaNs identified)");
     let kinds = [Kind::Value, Kind::WellFormedErr, Kind::MustErrOk];
     crate::fam::sign_runs::<F64>(cx, &kinds);
+    crate::fam::idioms::<F64>(cx, &kinds);
     use BinOp::*;
     let mut bins = ops(&[Add, Sub, Mul, Div, Rem, Pow]);
     bins.push(BinKind::Call(Func::Pow));
@@ -244,6 +245,7 @@ pub fn c06(cx: &RunCtx) {
     cx.assume("the oracle is exact arithmetic in i128 followed by the rules of C06; x<<y that does not fit and exponents outside 0..4294967295 carry no demand; MIN / -1 must be Err (no i64 is the quotient, so any Ok value would be fabricated)");
     let kinds = [Kind::Value, Kind::WellFormedErr, Kind::MustErrOk];
     crate::fam::sign_runs::<I64>(cx, &kinds);
+    crate::fam::idioms::<I64>(cx, &kinds);
     crate::fam::big_integers_one::<I64>(cx, &kinds);
     use BinOp::*;
     let mut bins = ops(&[Add, Sub, Mul, Div, Rem, Pow, And, Or, Shl, Shr]);
@@ -375,6 +377,7 @@ pub fn c07(cx: &RunCtx) {
     cx.assume("the oracle is exact rational arithmetic on arbitrary-precision integers (refmodel/big.rs); results between Decimal::MAX and MAX+1 and non-representable sums/products carry no demand");
     let kinds = [Kind::Value, Kind::WellFormedErr, Kind::MustErrOk];
     crate::fam::sign_runs::<Dec>(cx, &kinds);
+    crate::fam::idioms::<Dec>(cx, &kinds);
     crate::fam::big_integers_one::<Dec>(cx, &kinds);
     use BinOp::*;
     let mut bins = ops(&[Add, Sub, Mul, Div, Rem]);
@@ -432,6 +435,7 @@ pub fn c09(cx: &RunCtx) {
     cx.assume("Integer-only steps are checked for variant and value against i128 arithmetic; steps with a Float operand are checked for their numeric value only (the variant of such results is not specified)");
     let kinds = [Kind::Value, Kind::WellFormedErr, Kind::MustErrOk];
     crate::fam::sign_runs::<Num>(cx, &kinds);
+    crate::fam::idioms::<Num>(cx, &kinds);
     crate::fam::big_integers_one::<Num>(cx, &kinds);
     use BinOp::*;
     let mut bins = ops(&[Add, Sub, Mul, Div, Rem, Pow]);
